@@ -223,6 +223,7 @@ func c03Worker(raw json.RawMessage) *engine.Result {
 type c03Exec struct {
 	faulted string // client whose request may fail
 	fired   string // the request that failed
+	failed  []int  // keys of statements that returned an error (the injected fault has no effect: they never happened)
 	acked   []int
 	obs     []c03Obs
 	final   []int
@@ -287,7 +288,7 @@ func c03Build(sc c03Scen, c c03Case, choices []int) *engine.Sched {
 		for _, o := range ex.obs {
 			parts = append(parts, fmt.Sprint(o.Client, o.Rows, o.AckAtStart, o.Err))
 		}
-		return fmt.Sprint(ex.acked, parts)
+		return fmt.Sprint(ex.acked, ex.failed, parts)
 	}
 	for _, p := range sc.Progs {
 		p := p
@@ -341,6 +342,8 @@ func c03Build(sc c03Scen, c c03Case, choices []int) *engine.Sched {
 					me.Observe("insert %d err=%v", st.Keys[0], err != nil)
 					if err == nil {
 						ex.acked = append(ex.acked, st.Keys[0])
+					} else {
+						ex.failed = append(ex.failed, st.Keys[0])
 					}
 				case "tx":
 					if x == nil || openErr != "" {
@@ -356,6 +359,7 @@ func c03Build(sc c03Scen, c c03Case, choices []int) *engine.Sched {
 					if err == nil {
 						ex.acked = append(ex.acked, st.Keys...)
 					} else {
+						ex.failed = append(ex.failed, st.Keys...)
 						x.Exec("rollback")
 					}
 				case "select":
@@ -457,10 +461,22 @@ func c03Check(sc c03Scen, c c03Case, s *engine.Sched, res *engine.Result, outcom
 				break
 			}
 		}
-		// explainable: per writer a prefix of its units, each unit whole
+		// explainable: per writer a prefix of its units, each unit whole. A statement that returned an error (its
+		// request was the injected fault, which has no effect) never happened: it is no part of the prefix and
+		// its rows must not be there
+		failed := map[int]bool{}
+		for _, k := range ex.failed {
+			failed[k] = true
+			if seen[k] {
+				res.Violate("failed-statement-visible", "client %s sees %v: the statement inserting %d returned an error [%s]\n    %s", o.Client, o.Rows, k, where, trace())
+			}
+		}
 		for wn, units := range progUnits {
 			gap := false
 			for _, u := range units {
+				if len(u.keys) > 0 && failed[u.keys[0]] {
+					continue
+				}
 				n := 0
 				for _, k := range u.keys {
 					if seen[k] {
